@@ -171,7 +171,7 @@ def audit(cfg, prop):
         if body.startswith("Closed under the global context"):
             res[th] = {"ok": True, "axioms": [], "raw": body}
         else:
-            axioms = re.findall(r"^([A-Za-z_][\w.']*)\s*:", body, re.M)
+            axioms = [a for a in re.findall(r"^([A-Za-z_][\w.']*)\s*:", body, re.M) if a != "Axioms"]
             res[th] = {"ok": True, "axioms": axioms, "raw": body}
     return rc, out, res
 
@@ -387,7 +387,8 @@ def main():
     def handle_violations(vlist, odir, origin):
         for shard, idx, val in vlist[:50]:
             text = case_text(odir, shard, idx)
-            detail = val >> 2
+            detail = (val >> 2) & 0xff
+            step = val >> 10
             k = known_match(known, prop, detail, text)
             if k:
                 known_hits.append(k)
@@ -398,11 +399,11 @@ def main():
             name = "%s-%d-%s-%d.json" % (tier, seed, shard.replace(".v", ""), idx)
             path = write_replay(prop, name, {
                 "property": prop, "kind": "violation", "origin": origin, "seed": seed, "tier": tier,
-                "shard": shard, "index": idx, "result": val, "monitor_detail": detail,
+                "shard": shard, "index": idx, "result": val, "monitor_detail": detail, "first_failing_step": step,
                 "case": text[:200000],
                 "how_to_replay": "./check %s --replay <this file>  (re-runs the harness with this seed/tier against /repo and re-evaluates)" % prop,
             })
-            violations.append((path, "monitor fails on implementation trace (detail %d)" % detail, False, detail))
+            violations.append((path, "monitor fails on implementation trace (clause %d, step %d)" % (detail, step), False, detail))
 
     handle_violations(viol, outdir, "generated")
 
